@@ -111,6 +111,17 @@ type tableSpec struct {
 	tags     []string
 	pageCSS  string // "" = one tall page of pageWidth; otherwise the @page rules of a paged document
 	tborder  float64 // border of the table element itself (px, solid), 0 = none
+	rtl      bool    // direction: rtl on the table (column 0 is the rightmost column)
+}
+
+// withDir makes 3 in 10 laid-out tables direction: rtl.  Drawn after the table was generated (from the document's own
+// forked generator), so the rest of the document is what it was without this dimension.
+func withDir(r *vlib.Rng, t tableSpec) tableSpec {
+	if r.Chance(3, 10) {
+		t.rtl = true
+		t.tags = append(append([]string{}, t.tags...), "rtl")
+	}
+	return t
 }
 
 func half(r *vlib.Rng, lo, hi int) float64 { return float64(r.Range(2*lo, 2*hi)) / 2 }
@@ -708,6 +719,9 @@ func (t tableSpec) html() string {
 	}
 	if t.tborder > 0 {
 		style += fmt.Sprintf("border:%gpx solid black;", t.tborder)
+	}
+	if t.rtl {
+		style += "direction:rtl;"
 	}
 	fmt.Fprintf(&sb, `<table style="%s">`, style)
 	if t.caption != "" {
@@ -1395,10 +1409,11 @@ func layoutCases(src string, baseTags []string, kind string, st tStruct, w *vlib
 		}
 		w.Add(gridCase(src, st, preTb, auto, ncols, baseTags, kind))
 	}
-	if tb == nil || tb.Style.GetDirection() != "ltr" {
+	if tb == nil {
 		// crashes / hangs of the whole layout belong to C01; multi-page tables are out of scope
 		return
 	}
+	rtl := tb.Style.GetDirection() != "ltr"
 	collapse := tb.Style.GetBorderCollapse() == "collapse"
 	var bsx, bsy Fl
 	if !collapse {
@@ -1428,7 +1443,7 @@ func layoutCases(src string, baseTags []string, kind string, st tStruct, w *vlib
 	var descH, descV strings.Builder
 	var hrows, vgroups []string
 	okAll := true
-	spanning := false
+	spanning, colspanning := false, false
 	for gi, g := range tb.Children {
 		gf := g.Box()
 		if len(gf.Children) != len(pre[gi]) {
@@ -1453,6 +1468,9 @@ func layoutCases(src string, baseTags []string, kind string, st tStruct, w *vlib
 				hin = append(hin, fmt.Sprintf("(HC %s %s %s %s %s %s)", vlib.Z(p.gridx), vlib.Z(p.colspan), q(pl), q(prr), q(bl), q(br)))
 				if p.colspan > 1 || p.rowspan != 1 {
 					spanning = true
+				}
+				if p.colspan > 1 {
+					colspanning = true
 				}
 			}
 			// vertical: the cells that were laid out
@@ -1500,6 +1518,12 @@ func layoutCases(src string, baseTags []string, kind string, st tStruct, w *vlib
 	if spanning {
 		tags = append(tags, "spans")
 	}
+	if rtl {
+		tags = append(tags, "dir:rtl")
+		if colspanning {
+			tags = append(tags, "dir:rtl+colspan")
+		}
+	}
 	sort.Strings(tags)
 	common := map[string]interface{}{"html": src, "x0": x0, "y0": y0, "border_spacing": []Fl{bsx, bsy}, "column_widths": widths, "column_positions": tb.ColumnPositions, "table_width": tableW}
 	// horizontal
@@ -1507,9 +1531,17 @@ func layoutCases(src string, baseTags []string, kind string, st tStruct, w *vlib
 	for k, v := range common {
 		dh[k] = v
 	}
-	w.Add(vlib.Case{Kind: kind + "-horiz", Tags: tags, Nontrivial: len(widths) > 1,
-		Coq:  fmt.Sprintf("CHoriz %s %s %s %s [%s]", q(x0), q(bsx), qs(widths), qs(tb.ColumnPositions), strings.Join(hrows, "; ")),
-		Desc: dh})
+	if rtl {
+		// direction: rtl: the columns run from the right edge of the content box, a cell sits on the LAST column it spans
+		dh["direction"] = "rtl"
+		w.Add(vlib.Case{Kind: kind + "-horiz-rtl", Tags: tags, Nontrivial: len(widths) > 1,
+			Coq:  fmt.Sprintf("CHorizRtl %s %s %s %s %s [%s]", q(x0), q(tableW), q(bsx), qs(widths), qs(tb.ColumnPositions), strings.Join(hrows, "; ")),
+			Desc: dh})
+	} else {
+		w.Add(vlib.Case{Kind: kind + "-horiz", Tags: tags, Nontrivial: len(widths) > 1,
+			Coq:  fmt.Sprintf("CHoriz %s %s %s %s [%s]", q(x0), q(bsx), qs(widths), qs(tb.ColumnPositions), strings.Join(hrows, "; ")),
+			Desc: dh})
+	}
 	// vertical
 	dv := map[string]interface{}{"cells": descV.String()}
 	for k, v := range common {
@@ -1783,6 +1815,7 @@ func main() {
 			} else {
 				t = genPctSpanTable(r)
 			}
+			t = withDir(r, t)
 			layoutCases(t.html(), t.tags, "layout", t.tstruct(), w)
 			if c, ok := autoCase(t.html(), t.tags, "layout"); ok {
 				w.Add(c)
@@ -1802,6 +1835,7 @@ func main() {
 			} else {
 				t = genTable(r, false)
 			}
+			t = withDir(r, t)
 			layoutCases(t.html(), t.tags, "layout", t.tstruct(), w)
 			if c, ok := autoCase(t.html(), t.tags, "layout"); ok {
 				w.Add(c)
